@@ -3,7 +3,7 @@
     abstract per-wavenumber tables c, s) and under the reflection about the
     equator.  Every field, every size, both modal layouts. *)
 From Dino Require Import Base.Ops Base.Sums Base.Ord Gen.DerivExprs Model.SHT Model.Deriv Model.Invariants Model.Sigma Model.Implicit
-     Model.PrimEq Model.Symmetry Thm.SHT Thm.Deriv Thm.PrimEq.
+     Model.PrimEq Model.Symmetry Thm.SHT Thm.Deriv Thm.PrimEq Thm.Implicit.
 From Coq Require Import ZifyNat.
 Local Open Scope F_scope.
 Ltac Zify.zify_post_hook ::= Z.div_mod_to_equations.
@@ -1546,3 +1546,524 @@ Section PrimEqConcrete.
                                   lapc_mir m X q gqx gqy lapn r (a, l) Hw).
   Qed.
 End PrimEqConcrete.
+
+(** * 11. rotation by grid steps: the explicit primitive-equation tendencies of the rotated state are the
+    rotated tendencies (no sign bookkeeping: every nodal expression is pointwise in the horizontal) *)
+Section PrimEqTendencyRot.
+  Context {F : Type} {o : Ops F} {Fc : FieldC o}.
+  Add Field FFsy11 : (field_c : FieldTh o).
+  Variables W P : Type.
+  Variable inW : W -> Prop.
+  Variable inP : P -> Prop.
+  Variable toM : (P -> F) -> W -> F.
+  Variable divc curlc : (W -> F) -> (W -> F) -> W -> F.
+  Variable lap clip : (W -> F) -> W -> F.
+  Variable c : @PEcfg F.
+  Variable grav : F.
+  Variable piN : P -> P.                                     (* longitude shift of the nodes *)
+  Variable Rm : (W -> F) -> W -> F.                          (* rotation of a modal array *)
+
+  Hypothesis toM_ext : forall z z', (forall p, inP p -> z p = z' p) -> forall w, inW w -> toM z w = toM z' w.
+  Hypothesis clip_ext : ext1 W inW clip.
+  Hypothesis lap_ext : ext1 W inW lap.
+  Hypothesis divc_ext : ext2 W inW divc.
+  Hypothesis curlc_ext : ext2 W inW curlc.
+  Hypothesis Rm_lin : lin1 W inW Rm.
+  Hypothesis Rm_ext : ext1 W inW Rm.
+  (** rotation facts of the horizontal operators (instances: analysis_rot_equivariant, vector_calculus_rot,
+      l_scale_equivariant) *)
+  Hypothesis toM_rot : forall z w, inW w -> toM (fun p => z (piN p)) w = Rm (toM z) w.
+  Hypothesis divc_rot : forall a b w, inW w -> divc (Rm a) (Rm b) w = Rm (divc a b) w.
+  Hypothesis curlc_rot : forall a b w, inW w -> curlc (Rm a) (Rm b) w = Rm (curlc a b) w.
+  Hypothesis lap_rot : forall a w, inW w -> lap (Rm a) w = Rm (lap a) w.
+  Hypothesis clip_rot : forall a w, inW w -> clip (Rm a) w = Rm (clip a) w.
+
+  (** the nodal columns of the rotated state: the shifted family (tables sec2_lat, f do not depend on longitude) *)
+  Definition rotX (X : P -> @NCol F) : P -> @NCol F := fun p => X (piN p).
+
+  Lemma toM_rot' (z' z : P -> F) w : (forall p, inP p -> z' p = z (piN p)) -> inW w -> toM z' w = Rm (toM z) w.
+  Proof. intros E Hw. rewrite <- toM_rot by assumption. now apply toM_ext. Qed.
+
+  Lemma flux_div_rot (X : P -> NCol) (s : P -> nat -> F) r w :
+    inW w ->
+    divc (toM (fun p => hsa_mu (rotX X p) (s (piN p)) r)) (toM (fun p => hsa_mv (rotX X p) (s (piN p)) r)) w
+    = Rm (divc (toM (fun p => hsa_mu (X p) (s p) r)) (toM (fun p => hsa_mv (X p) (s p) r))) w.
+  Proof.
+    intros Hw. rewrite <- divc_rot by assumption. apply divc_ext; try assumption; intros w' Hw'.
+    - apply (toM_rot' _ (fun p => hsa_mu (X p) (s p) r)); [|assumption]. intros p _. reflexivity.
+    - apply (toM_rot' _ (fun p => hsa_mv (X p) (s p) r)); [|assumption]. intros p _. reflexivity.
+  Qed.
+
+  Lemma scalar_eq_rot (A A' : W -> F) (X : P -> NCol) (s : P -> nat -> F) r w :
+    inW w -> (forall w', inW w' -> A' w' = Rm A w') ->
+    clip (fun w' => A' w' + - divc (toM (fun p => hsa_mu (rotX X p) (s (piN p)) r))
+                                   (toM (fun p => hsa_mv (rotX X p) (s (piN p)) r)) w') w
+    = Rm (clip (fun w' => A w' + - divc (toM (fun p => hsa_mu (X p) (s p) r)) (toM (fun p => hsa_mv (X p) (s p) r)) w')) w.
+  Proof.
+    intros Hw HA. destruct Rm_lin as (Radd & Ropp & _).
+    rewrite <- clip_rot by assumption. apply clip_ext; [|assumption]. intros w' Hw'.
+    rewrite Radd, Ropp by assumption. rewrite HA, flux_div_rot by assumption. reflexivity.
+  Qed.
+
+  Theorem primeq_temperature_rot (X : P -> NCol) r w :
+    inW w ->
+    temp_tendency_explicit W P toM divc clip c (rotX X) r w = Rm (temp_tendency_explicit W P toM divc clip c X r) w.
+  Proof.
+    intros Hw. unfold temp_tendency_explicit.
+    apply (scalar_eq_rot (toM (fun p => temp_nodal_total c true (X p) r)) _ X (fun p => n_temp (X p)) r w Hw).
+    intros w' Hw'. apply toM_rot'; [|assumption]. intros p _. reflexivity.
+  Qed.
+
+  Theorem primeq_temperature_moist_rot (m : Moist) (X : P -> NCol) (q : P -> nat -> F) r w :
+    inW w ->
+    temp_tendency_explicit_moist W P toM divc clip c m (rotX X) (fun p => q (piN p)) r w
+    = Rm (temp_tendency_explicit_moist W P toM divc clip c m X q r) w.
+  Proof.
+    intros Hw. unfold temp_tendency_explicit_moist.
+    apply (scalar_eq_rot (toM (fun p => temp_nodal_total_moist c true m (X p) (q p) r)) _ X (fun p => n_temp (X p)) r w Hw).
+    intros w' Hw'. apply toM_rot'; [|assumption]. intros p _. reflexivity.
+  Qed.
+
+  Theorem primeq_tracer_rot (X : P -> NCol) (s : P -> nat -> F) r w :
+    inW w ->
+    tracer_tendency_explicit W P toM divc clip c (rotX X) (fun p => s (piN p)) r w
+    = Rm (tracer_tendency_explicit W P toM divc clip c X s r) w.
+  Proof.
+    intros Hw. unfold tracer_tendency_explicit.
+    apply (scalar_eq_rot (toM (fun p => tracer_nodal_total c true (X p) (s p) r)) _ X s r w Hw).
+    intros w' Hw'. apply toM_rot'; [|assumption]. intros p _. reflexivity.
+  Qed.
+
+  Theorem primeq_lnps_rot (X : P -> NCol) w :
+    inW w ->
+    toM (fun p => log_pressure_tendency c (rotX X p)) w = Rm (toM (fun p => log_pressure_tendency c (X p))) w.
+  Proof. intros Hw. apply toM_rot'; [|assumption]. intros p _. reflexivity. Qed.
+
+  Lemma combined_pair_rot (X : P -> NCol) (rt : P -> nat -> F) r :
+    (forall w, inW w -> toM (fun p => combined_u c true (rotX X p) (rt (piN p)) r) w
+                        = Rm (toM (fun p => combined_u c true (X p) (rt p) r)) w) /\
+    (forall w, inW w -> toM (fun p => combined_v c true (rotX X p) (rt (piN p)) r) w
+                        = Rm (toM (fun p => combined_v c true (X p) (rt p) r)) w).
+  Proof. split; intros w Hw; (apply toM_rot'; [|assumption]); intros p _; reflexivity. Qed.
+
+  (** divergence: the orography (and the humidity correction) of the rotated configuration are the rotated ones *)
+  Theorem primeq_divergence_rot (X : P -> NCol) (rt : P -> nat -> F) (orog hum : W -> F) r w :
+    inW w ->
+    div_tendency_explicit W P toM divc lap clip c grav (rotX X) (fun p => rt (piN p)) (Rm orog) (Rm hum) r w
+    = Rm (div_tendency_explicit W P toM divc lap clip c grav X rt orog hum r) w.
+  Proof.
+    intros Hw. destruct Rm_lin as (Radd & Ropp & Rscal). destruct (combined_pair_rot X rt r) as [CU CV].
+    unfold div_tendency_explicit. rewrite <- clip_rot by assumption. apply clip_ext; [|assumption]. intros w' Hw'.
+    rewrite !Radd by assumption. rewrite Rscal, !Ropp by assumption.
+    assert (E1 : divc (toM (fun p => combined_u c true (rotX X p) (rt (piN p)) r))
+                      (toM (fun p => combined_v c true (rotX X p) (rt (piN p)) r)) w'
+                 = Rm (divc (toM (fun p => combined_u c true (X p) (rt p) r)) (toM (fun p => combined_v c true (X p) (rt p) r))) w').
+    { rewrite <- divc_rot by assumption. apply divc_ext; assumption. }
+    assert (E2 : lap (toM (fun p => kinetic (rotX X p) r)) w' = Rm (lap (toM (fun p => kinetic (X p) r))) w').
+    { rewrite <- lap_rot by assumption. apply lap_ext; [|assumption]. intros w'' Hw''.
+      apply toM_rot'; [|assumption]. intros p _. reflexivity. }
+    rewrite E1, E2, (lap_rot orog w' Hw'). reflexivity.
+  Qed.
+
+  Theorem primeq_vorticity_rot (X : P -> NCol) (rt : P -> nat -> F) (hum : W -> F) r w :
+    inW w ->
+    vort_tendency_explicit W P toM curlc clip c (rotX X) (fun p => rt (piN p)) (Rm hum) r w
+    = Rm (vort_tendency_explicit W P toM curlc clip c X rt hum r) w.
+  Proof.
+    intros Hw. destruct Rm_lin as (Radd & Ropp & _). destruct (combined_pair_rot X rt r) as [CU CV].
+    unfold vort_tendency_explicit. rewrite <- clip_rot by assumption. apply clip_ext; [|assumption]. intros w' Hw'.
+    rewrite Radd, Ropp by assumption.
+    assert (E1 : curlc (toM (fun p => combined_u c true (rotX X p) (rt (piN p)) r))
+                       (toM (fun p => combined_v c true (rotX X p) (rt (piN p)) r)) w'
+                 = Rm (curlc (toM (fun p => combined_u c true (X p) (rt p) r)) (toM (fun p => combined_v c true (X p) (rt p) r))) w').
+    { rewrite <- curlc_rot by assumption. apply curlc_ext; assumption. }
+    rewrite E1. reflexivity.
+  Qed.
+
+  (** humidity corrections of the moist classes *)
+  Theorem primeq_humidity_rot (m : Moist) (X : P -> NCol) (q gqx gqy : P -> nat -> F) (lapn : P -> F) r w :
+    inW w ->
+    humidity_div_modal W P toM lap c m (rotX X) (fun p => q (piN p)) (fun p => gqx (piN p)) (fun p => gqy (piN p))
+                       (fun p => lapn (piN p)) r w
+      = Rm (humidity_div_modal W P toM lap c m X q gqx gqy lapn r) w /\
+    humidity_curl_modal W P toM c m (rotX X) (fun p => gqx (piN p)) (fun p => gqy (piN p)) r w
+      = Rm (humidity_curl_modal W P toM c m X gqx gqy r) w.
+  Proof.
+    intros Hw. destruct Rm_lin as (Radd & Ropp & _). split.
+    - unfold humidity_div_modal.
+      assert (E1 : lap (toM (fun p => humidity_geo_nodal c false m (rotX X p) (q (piN p)) r)) w
+                   = Rm (lap (toM (fun p => humidity_geo_nodal c false m (X p) (q p) r))) w).
+      { rewrite <- lap_rot by assumption. apply lap_ext; [|assumption]. intros w' Hw'.
+        apply toM_rot'; [|assumption]. intros p _. reflexivity. }
+      assert (E2 : toM (fun p => humidity_div_nodal c m (rotX X p) (q (piN p)) (gqx (piN p)) (gqy (piN p)) (lapn (piN p)) r) w
+                   = Rm (toM (fun p => humidity_div_nodal c m (X p) (q p) (gqx p) (gqy p) (lapn p) r)) w).
+      { apply toM_rot'; [|assumption]. intros p _. reflexivity. }
+      rewrite (Rm_ext _ (fun w' => - lap (toM (fun p => humidity_geo_nodal c false m (X p) (q p) r)) w'
+                                   + - toM (fun p => humidity_div_nodal c m (X p) (q p) (gqx p) (gqy p) (lapn p) r) w'))
+        by (try assumption; intros; ring).
+      rewrite Radd, !Ropp by assumption. rewrite E1, E2. ring.
+    - unfold humidity_curl_modal. apply toM_rot'; [|assumption]. intros p _. reflexivity.
+  Qed.
+
+  (** the tendencies of ANY column family X' that agrees entrywise with the shifted family of X *)
+  Theorem primeq_rotated_columns_tendency (m : Moist) (X X' : P -> NCol) (rt rt' q q' s s' : P -> nat -> F)
+          (orog hum humz : W -> F) r w :
+    cols_eqv P inP c X' (rotX X) -> (r < cK c)%nat -> inW w ->
+    (forall p, inP p -> rt' p r = rt (piN p) r) -> (forall p, inP p -> q' p r = q (piN p) r) ->
+    (forall p, inP p -> forall k, (k < cK c)%nat -> s' p k = s (piN p) k) ->
+    temp_tendency_explicit W P toM divc clip c X' r w = Rm (temp_tendency_explicit W P toM divc clip c X r) w /\
+    temp_tendency_explicit_moist W P toM divc clip c m X' q' r w = Rm (temp_tendency_explicit_moist W P toM divc clip c m X q r) w /\
+    tracer_tendency_explicit W P toM divc clip c X' s' r w = Rm (tracer_tendency_explicit W P toM divc clip c X s r) w /\
+    toM (fun p => log_pressure_tendency c (X' p)) w = Rm (toM (fun p => log_pressure_tendency c (X p))) w /\
+    div_tendency_explicit W P toM divc lap clip c grav X' rt' (Rm orog) (Rm hum) r w
+      = Rm (div_tendency_explicit W P toM divc lap clip c grav X rt orog hum r) w /\
+    vort_tendency_explicit W P toM curlc clip c X' rt' (Rm humz) r w
+      = Rm (vort_tendency_explicit W P toM curlc clip c X rt humz r) w.
+  Proof.
+    intros EX Hr Hw Hrt Hq Hs.
+    destruct (assembly_cong W P inW inP toM divc curlc lap clip c grav toM_ext clip_ext lap_ext divc_ext curlc_ext
+                            X' (rotX X) EX m rt' (fun p => rt (piN p)) q' (fun p => q (piN p)) s' (fun p => s (piN p)) r Hr
+                            Hrt Hq Hs (Rm orog) (Rm hum) (Rm humz) w Hw) as (A1 & A2 & A3 & A4 & A5 & A6).
+    rewrite A1, A2, A3, A4, A5, A6.
+    repeat split.
+    - now apply primeq_temperature_rot.
+    - now apply primeq_temperature_moist_rot.
+    - now apply primeq_tracer_rot.
+    - now apply primeq_lnps_rot.
+    - now apply primeq_divergence_rot.
+    - now apply primeq_vorticity_rot.
+  Qed.
+End PrimEqTendencyRot.
+
+(** * 12. ... instantiated with the concrete transforms / spectral operators, under H_rot_table, H_p_pairs,
+    H_rot_unit and the pairing of the recurrence weights (sym_rows), both layouts *)
+Section PrimEqConcreteRot.
+  Context {F : Type} {o : Ops F} {Fc : FieldC o}.
+  Add Field FFsy12 : (field_c : FieldTh o).
+  Variables (fast : bool) (R L I J : nat).
+  Variable f : nat -> nat -> F.
+  Variable p : nat -> nat -> nat -> F.
+  Variable wq : nat -> F.
+  Variables (rad : F) (wa wb : @marr F).
+  Variable c : @PEcfg F.
+  Variable grav : F.
+  Variables (k : nat) (rc rs : nat -> F).                  (* shift by k nodes; cos / sin tables of the rotation *)
+  Hypothesis HR : layout_ok fast R.
+  Hypothesis Hrot : H_rot_table fast R I f k rc rs.
+  Hypothesis Hpp : H_p_pairs fast R L J p.
+  Hypothesis Hun : H_rot_unit rc rs.
+  Hypothesis Hwa : sym_rows fast R wa.
+  Hypothesis Hwb : sym_rows fast R wb.
+
+  Definition piNr (q : Wc) : Wc := (((fst q + k) mod I)%nat, snd q).
+  Definition Rmc (a : Wc -> F) (w : Wc) : F := rot_modal fast rc rs (un a) (fst w) (snd w).
+
+  Lemma Rmc_lin : lin1 Wc (inWc R L) Rmc.
+  Proof. repeat split; intros; unfold Rmc, rot_modal, un; ring. Qed.
+
+  Lemma Rmc_ext : ext1 Wc (inWc R L) Rmc.
+  Proof.
+    intros a b E [i l] [Hi Hl]. cbn [fst snd] in Hi, Hl. unfold Rmc, rot_modal, un. cbn [fst snd].
+    rewrite (E (i, l)) by (split; assumption).
+    rewrite (E (sy_partner fast i, l)) by (split; cbn [fst snd]; [now apply (partner_lt fast R)|assumption]).
+    reflexivity.
+  Qed.
+
+  Lemma un_Rmc a : un (Rmc a) = rot_modal fast rc rs (un a). Proof. reflexivity. Qed.
+
+  Lemma toMc_rot : forall (z : Wc -> F) w, inWc R L w -> toMc R I J f p wq (fun q => z (piNr q)) w = Rmc (toMc R I J f p wq z) w.
+  Proof.
+    intros z [a l] [Ha Hl]. cbn [fst snd] in Ha, Hl. unfold toMc, Rmc. cbn [fst snd].
+    change (un (fun w : Wc => analysis R I J f p wq (un z) (fst w) (snd w))) with (analysis R I J f p wq (un z)).
+    rewrite <- (analysis_rot_equivariant fast R L I J f p wq HR k rc rs (un z) a l Hrot Hpp Hun Ha Hl).
+    reflexivity.
+  Qed.
+
+  Lemma divcc_rot : forall a b w, inWc R L w ->
+    divcc fast R L rad wa wb (Rmc a) (Rmc b) w = Rmc (divcc fast R L rad wa wb a b) w.
+  Proof.
+    intros a b [i l] [Hi Hl]. cbn [fst snd] in Hi, Hl. unfold divcc at 1. cbn [fst snd]. rewrite !un_Rmc.
+    exact (proj1 (proj2 (proj2 (vector_calculus_rot fast L R L rad wa wb false HR rc rs (un a) (un a) (un b) i l Hi Hl
+                                                     (proj1 Hun) Hwa Hwb)))).
+  Qed.
+  Lemma curlcc_rot : forall a b w, inWc R L w ->
+    curlcc fast R L rad wa wb (Rmc a) (Rmc b) w = Rmc (curlcc fast R L rad wa wb a b) w.
+  Proof.
+    intros a b [i l] [Hi Hl]. cbn [fst snd] in Hi, Hl. unfold curlcc at 1. cbn [fst snd]. rewrite !un_Rmc.
+    exact (proj1 (proj2 (proj2 (proj2 (vector_calculus_rot fast L R L rad wa wb false HR rc rs (un a) (un a) (un b) i l Hi Hl
+                                                            (proj1 Hun) Hwa Hwb))))).
+  Qed.
+  Lemma lapc_rot : forall a w, inWc R L w -> lapc L rad (Rmc a) w = Rmc (lapc L rad a) w.
+  Proof. intros a [i l] _. unfold lapc, Rmc, laplacian, rot_modal, un. cbn [fst snd]. ring. Qed.
+  Lemma clipc_rot : forall a w, inWc R L w -> clipc L (Rmc a) w = Rmc (clipc L a) w.
+  Proof. intros a [i l] _. unfold clipc, Rmc, clip, rot_modal, un. cbn [fst snd]. ring. Qed.
+
+  (** X: the nodal columns of a state, indexed by the node (i, j); [rotX piNr X] those of the state shifted by k nodes *)
+  Theorem primeq_tendency_rot_equivariant (m : Moist) (X : Wc -> NCol) (rt q s : Wc -> nat -> F) (orog hum humz : Wc -> F) r a l :
+    (a < R)%nat -> (l < L)%nat ->
+    let toM := toMc R I J f p wq in let divc := divcc fast R L rad wa wb in let curlc := curlcc fast R L rad wa wb in
+    let lap := lapc L rad in let clp := clipc L in
+    temp_tendency_explicit Wc Wc toM divc clp c (rotX Wc piNr X) r (a, l)
+      = rot_modal fast rc rs (un (temp_tendency_explicit Wc Wc toM divc clp c X r)) a l /\
+    temp_tendency_explicit_moist Wc Wc toM divc clp c m (rotX Wc piNr X) (fun n => q (piNr n)) r (a, l)
+      = rot_modal fast rc rs (un (temp_tendency_explicit_moist Wc Wc toM divc clp c m X q r)) a l /\
+    tracer_tendency_explicit Wc Wc toM divc clp c (rotX Wc piNr X) (fun n => s (piNr n)) r (a, l)
+      = rot_modal fast rc rs (un (tracer_tendency_explicit Wc Wc toM divc clp c X s r)) a l /\
+    toM (fun n => log_pressure_tendency c (rotX Wc piNr X n)) (a, l)
+      = rot_modal fast rc rs (un (toM (fun n => log_pressure_tendency c (X n)))) a l /\
+    div_tendency_explicit Wc Wc toM divc lap clp c grav (rotX Wc piNr X) (fun n => rt (piNr n)) (Rmc orog) (Rmc hum) r (a, l)
+      = rot_modal fast rc rs (un (div_tendency_explicit Wc Wc toM divc lap clp c grav X rt orog hum r)) a l /\
+    vort_tendency_explicit Wc Wc toM curlc clp c (rotX Wc piNr X) (fun n => rt (piNr n)) (Rmc humz) r (a, l)
+      = rot_modal fast rc rs (un (vort_tendency_explicit Wc Wc toM curlc clp c X rt humz r)) a l.
+  Proof.
+    intros Ha Hl toM divc curlc lap clp. assert (Hw : inWc R L (a, l)) by (split; assumption).
+    pose proof (toMc_ext R L I J f p wq) as E0. pose proof (clipc_ext R L) as E1. pose proof (lapc_ext R L rad) as E2.
+    pose proof (divcc_ext fast R L f rad wa wb) as E3. pose proof (curlcc_ext fast R L f rad wa wb) as E4.
+    repeat split.
+    - exact (primeq_temperature_rot Wc Wc (inWc R L) (inPc I J) toM divc clp c piNr Rmc E0 E1 E3 Rmc_lin toMc_rot divcc_rot clipc_rot X r (a, l) Hw).
+    - exact (primeq_temperature_moist_rot Wc Wc (inWc R L) (inPc I J) toM divc clp c piNr Rmc E0 E1 E3 Rmc_lin toMc_rot divcc_rot clipc_rot
+                                          m X q r (a, l) Hw).
+    - exact (primeq_tracer_rot Wc Wc (inWc R L) (inPc I J) toM divc clp c piNr Rmc E0 E1 E3 Rmc_lin toMc_rot divcc_rot clipc_rot X s r (a, l) Hw).
+    - exact (primeq_lnps_rot Wc Wc (inWc R L) (inPc I J) toM c piNr Rmc E0 toMc_rot X (a, l) Hw).
+    - exact (primeq_divergence_rot Wc Wc (inWc R L) (inPc I J) toM divc lap clp c grav piNr Rmc E0 E1 E2 E3 Rmc_lin toMc_rot divcc_rot
+                                   lapc_rot clipc_rot X rt orog hum r (a, l) Hw).
+    - exact (primeq_vorticity_rot Wc Wc (inWc R L) (inPc I J) toM curlc clp c piNr Rmc E0 E1 E4 Rmc_lin toMc_rot curlcc_rot clipc_rot
+                                  X rt humz r (a, l) Hw).
+  Qed.
+
+  (** velocities of the rotated state *)
+  Theorem get_cos_lat_vector_rot cl (vort dive : marr) i l :
+    (i < R)%nat -> (l < L)%nat ->
+    fst (get_cos_lat_vector fast L R L rad wa wb cl (rot_modal fast rc rs vort) (rot_modal fast rc rs dive)) i l
+      = rot_modal fast rc rs (fst (get_cos_lat_vector fast L R L rad wa wb cl vort dive)) i l /\
+    snd (get_cos_lat_vector fast L R L rad wa wb cl (rot_modal fast rc rs vort) (rot_modal fast rc rs dive)) i l
+      = rot_modal fast rc rs (snd (get_cos_lat_vector fast L R L rad wa wb cl vort dive)) i l.
+  Proof.
+    intros Hi Hl. unfold get_cos_lat_vector. cbv zeta. unfold k_cross. cbn [fst snd].
+    assert (E : forall x i' l', (i' < R)%nat -> (l' < L)%nat ->
+                inverse_laplacian L rad (rot_modal fast rc rs x) i' l' = rot_modal fast rc rs (inverse_laplacian L rad x) i' l')
+      by (intros; unfold inverse_laplacian, rot_modal; ring).
+    destruct (grad_ext fast R L f rad wa wb cl _ _ i l (E vort) Hi Hl) as [S1 S2].
+    destruct (grad_ext fast R L f rad wa wb cl _ _ i l (E dive) Hi Hl) as [V1 V2].
+    rewrite S1, S2, V1, V2.
+    destruct (vector_calculus_rot fast L R L rad wa wb cl HR rc rs (inverse_laplacian L rad vort)
+                                  (inverse_laplacian L rad vort) (inverse_laplacian L rad vort) i l Hi Hl (proj1 Hun) Hwa Hwb) as (G1 & G2 & _).
+    destruct (vector_calculus_rot fast L R L rad wa wb cl HR rc rs (inverse_laplacian L rad dive)
+                                  (inverse_laplacian L rad dive) (inverse_laplacian L rad dive) i l Hi Hl (proj1 Hun) Hwa Hwb) as (P1 & P2 & _).
+    rewrite G1, G2, P1, P2. unfold rot_modal. split; ring.
+  Qed.
+
+  (** the nodal columns synthesised from the rotated modal fields are (entrywise) the shifted family *)
+  Theorem primeq_columns_of_rotated_state (um vm zeta delta temp : nat -> marr) (gxm gym : marr) (sec2 cor : nat -> F) :
+    cols_eqv Wc (inPc I J) c
+      (cols_of_modal R L J f p (fun n => rot_modal fast rc rs (um n)) (fun n => rot_modal fast rc rs (vm n))
+                     (fun n => rot_modal fast rc rs (zeta n)) (fun n => rot_modal fast rc rs (delta n))
+                     (fun n => rot_modal fast rc rs (temp n)) (rot_modal fast rc rs gxm) (rot_modal fast rc rs gym) sec2 cor)
+      (rotX Wc piNr (cols_of_modal R L J f p um vm zeta delta temp gxm gym sec2 cor)).
+  Proof.
+    intros [i j] [Hi Hj]. cbn [fst snd] in Hi, Hj.
+    unfold ncol_eqv, rotX, cols_of_modal, piNr. cbn [n_u n_v n_vort n_div n_temp n_gx n_gy n_sec2 n_f fst snd].
+    repeat split; try (intros n _);
+      try (rewrite (synth_rot_equivariant fast R L I J f p HR k rc rs _ i j Hrot Hpp (proj1 Hun) Hi Hj); reflexivity).
+  Qed.
+
+  (** the tendencies computed from the rotated MODAL state (orography rotated too) are the rotated tendencies *)
+  Theorem primeq_rotated_state_tendency (m : Moist) (um vm zeta delta temp : nat -> marr) (gxm gym : marr) (sec2 cor : nat -> F)
+          (rt rt' q q' s s' : Wc -> nat -> F) (orog hum humz : Wc -> F) r a l :
+    let X := cols_of_modal R L J f p um vm zeta delta temp gxm gym sec2 cor in
+    let X' := cols_of_modal R L J f p (fun n => rot_modal fast rc rs (um n)) (fun n => rot_modal fast rc rs (vm n))
+                            (fun n => rot_modal fast rc rs (zeta n)) (fun n => rot_modal fast rc rs (delta n))
+                            (fun n => rot_modal fast rc rs (temp n)) (rot_modal fast rc rs gxm) (rot_modal fast rc rs gym) sec2 cor in
+    let toM := toMc R I J f p wq in let divc := divcc fast R L rad wa wb in let curlc := curlcc fast R L rad wa wb in
+    let lap := lapc L rad in let clp := clipc L in
+    (forall n, inPc I J n -> rt' n r = rt (piNr n) r) -> (forall n, inPc I J n -> q' n r = q (piNr n) r) ->
+    (forall n, inPc I J n -> forall g, (g < cK c)%nat -> s' n g = s (piNr n) g) ->
+    (r < cK c)%nat -> (a < R)%nat -> (l < L)%nat ->
+    temp_tendency_explicit Wc Wc toM divc clp c X' r (a, l)
+      = rot_modal fast rc rs (un (temp_tendency_explicit Wc Wc toM divc clp c X r)) a l /\
+    temp_tendency_explicit_moist Wc Wc toM divc clp c m X' q' r (a, l)
+      = rot_modal fast rc rs (un (temp_tendency_explicit_moist Wc Wc toM divc clp c m X q r)) a l /\
+    tracer_tendency_explicit Wc Wc toM divc clp c X' s' r (a, l)
+      = rot_modal fast rc rs (un (tracer_tendency_explicit Wc Wc toM divc clp c X s r)) a l /\
+    toM (fun n => log_pressure_tendency c (X' n)) (a, l)
+      = rot_modal fast rc rs (un (toM (fun n => log_pressure_tendency c (X n)))) a l /\
+    div_tendency_explicit Wc Wc toM divc lap clp c grav X' rt' (Rmc orog) (Rmc hum) r (a, l)
+      = rot_modal fast rc rs (un (div_tendency_explicit Wc Wc toM divc lap clp c grav X rt orog hum r)) a l /\
+    vort_tendency_explicit Wc Wc toM curlc clp c X' rt' (Rmc humz) r (a, l)
+      = rot_modal fast rc rs (un (vort_tendency_explicit Wc Wc toM curlc clp c X rt humz r)) a l.
+  Proof.
+    intros X X' toM divc curlc lap clp Hrt Hq Hss Hr Ha Hl. assert (Hw : inWc R L (a, l)) by (split; assumption).
+    exact (primeq_rotated_columns_tendency Wc Wc (inWc R L) (inPc I J) toM divc curlc lap clp c grav piNr Rmc
+             (toMc_ext R L I J f p wq) (clipc_ext R L) (lapc_ext R L rad) (divcc_ext fast R L f rad wa wb) (curlcc_ext fast R L f rad wa wb)
+             Rmc_lin toMc_rot divcc_rot curlcc_rot lapc_rot clipc_rot m X X' rt rt' q q' s s' orog hum humz r (a, l)
+             (primeq_columns_of_rotated_state um vm zeta delta temp gxm gym sec2 cor) Hr Hw Hrt Hq Hss).
+  Qed.
+
+  (** humidity corrections of the moist classes *)
+  Theorem primeq_humidity_rot_concrete (m : Moist) (X : Wc -> NCol) (q gqx gqy : Wc -> nat -> F) (lapn : Wc -> F) r a l :
+    (a < R)%nat -> (l < L)%nat ->
+    humidity_div_modal Wc Wc (toMc R I J f p wq) (lapc L rad) c m (rotX Wc piNr X) (fun n => q (piNr n)) (fun n => gqx (piNr n))
+                       (fun n => gqy (piNr n)) (fun n => lapn (piNr n)) r (a, l)
+      = rot_modal fast rc rs (un (humidity_div_modal Wc Wc (toMc R I J f p wq) (lapc L rad) c m X q gqx gqy lapn r)) a l /\
+    humidity_curl_modal Wc Wc (toMc R I J f p wq) c m (rotX Wc piNr X) (fun n => gqx (piNr n)) (fun n => gqy (piNr n)) r (a, l)
+      = rot_modal fast rc rs (un (humidity_curl_modal Wc Wc (toMc R I J f p wq) c m X gqx gqy r)) a l.
+  Proof.
+    intros Ha Hl. assert (Hw : inWc R L (a, l)) by (split; assumption).
+    exact (primeq_humidity_rot Wc Wc (inWc R L) (inPc I J) (toMc R I J f p wq) (lapc L rad) c piNr Rmc (toMc_ext R L I J f p wq)
+                               (lapc_ext R L rad) Rmc_lin Rmc_ext toMc_rot lapc_rot m X q gqx gqy lapn r (a, l) Hw).
+  Qed.
+End PrimEqConcreteRot.
+
+(** * 13. implicit terms and implicit inverse of the primitive equations (Model/Implicit.v): operators acting on the
+    vertical column of one coefficient (m, l), depending on l only - they commute with both actions *)
+Section ImplicitEquivariance.
+  Context {F : Type} {o : Ops F} {Fc : FieldC o}.
+  Add Field FFsy13 : (field_c : FieldTh o).
+  Variable fast : bool.
+  Variable K : nat.
+  (** a family of column operators indexed by the total wavenumber (through the laplacian eigenvalue) *)
+  Variable Lop : nat -> @Col F -> @Col F.
+  Definition col_linear : Prop :=
+    forall l a b x y, col_eq K (Lop l (col_lin a x b y)) (col_lin a (Lop l x) b (Lop l y)).
+  Definition col_respects : Prop := forall l x y, col_eq K x y -> col_eq K (Lop l x) (Lop l y).
+
+  (** the column (divergence, temperature, lnps) of the coefficient at row i, total wavenumber l *)
+  Definition col_at (dv tp : nat -> @marr F) (ps : @marr F) (i l : nat) : @Col F :=
+    mkCol (fun g => dv g i l) (fun g => tp g i l) (ps i l).
+  (** the operator applied coefficient by coefficient: result stacks *)
+  Definition op_div (dv tp : nat -> marr) (ps : marr) (g : nat) : marr := fun i l => c_div (Lop l (col_at dv tp ps i l)) g.
+  Definition op_temp (dv tp : nat -> marr) (ps : marr) (g : nat) : marr := fun i l => c_temp (Lop l (col_at dv tp ps i l)) g.
+  Definition op_lnps (dv tp : nat -> marr) (ps : marr) : marr := fun i l => c_lnps (Lop l (col_at dv tp ps i l)).
+
+  Theorem column_family_rot_equivariant (c s : nat -> F) (dv tp : nat -> marr) (ps : marr) g i l :
+    col_linear -> (g < K)%nat ->
+    let dv' := fun g => rot_modal fast c s (dv g) in let tp' := fun g => rot_modal fast c s (tp g) in
+    let ps' := rot_modal fast c s ps in
+    op_div dv' tp' ps' g i l = rot_modal fast c s (op_div dv tp ps g) i l /\
+    op_temp dv' tp' ps' g i l = rot_modal fast c s (op_temp dv tp ps g) i l /\
+    op_lnps dv' tp' ps' i l = rot_modal fast c s (op_lnps dv tp ps) i l.
+  Proof.
+    intros Hlin Hg dv' tp' ps'. unfold op_div, op_temp, op_lnps.
+    change (col_at dv' tp' ps' i l)
+      with (col_lin (c (sy_wav fast i)) (col_at dv tp ps i l) (rot_s fast s i) (col_at dv tp ps (sy_partner fast i) l)).
+    destruct (Hlin l (c (sy_wav fast i)) (rot_s fast s i) (col_at dv tp ps i l) (col_at dv tp ps (sy_partner fast i) l))
+      as (E1 & E2 & E3).
+    repeat split; [rewrite (E1 g Hg)|rewrite (E2 g Hg)|rewrite E3]; reflexivity.
+  Qed.
+
+  Theorem column_family_mir_equivariant pz (dv tp : nat -> marr) (ps : marr) g i l :
+    col_linear -> col_respects -> (g < K)%nat ->
+    let dv' := fun g => mir_modal fast pz (dv g) in let tp' := fun g => mir_modal fast pz (tp g) in
+    let ps' := mir_modal fast pz ps in
+    op_div dv' tp' ps' g i l = mir_modal fast pz (op_div dv tp ps g) i l /\
+    op_temp dv' tp' ps' g i l = mir_modal fast pz (op_temp dv tp ps g) i l /\
+    op_lnps dv' tp' ps' i l = mir_modal fast pz (op_lnps dv tp ps) i l.
+  Proof.
+    intros Hlin Hres Hg dv' tp' ps'. unfold op_div, op_temp, op_lnps.
+    set (sg := sgn_if pz * sgn_pow (l + sy_wav fast i)).
+    assert (E0 : col_eq K (col_at dv' tp' ps' i l) (col_lin sg (col_at dv tp ps i l) 0 (col_at dv tp ps i l))).
+    { repeat split; cbn [col_at col_lin c_div c_temp c_lnps]; intros; unfold dv', tp', ps', mir_modal, sg; ring. }
+    destruct (Hres l _ _ E0) as (R1 & R2 & R3).
+    destruct (Hlin l sg 0 (col_at dv tp ps i l) (col_at dv tp ps i l)) as (E1 & E2 & E3).
+    repeat split; [rewrite (R1 g Hg), (E1 g Hg)|rewrite (R2 g Hg), (E2 g Hg)|rewrite R3, E3];
+      cbn [col_lin c_div c_temp c_lnps]; unfold mir_modal, sg; ring.
+  Qed.
+End ImplicitEquivariance.
+
+Section ImplicitInstances.
+  Context {F : Type} {o : Ops F} {Fc : FieldC o}.
+  Add Field FFsy14 : (field_c : FieldTh o).
+  Variable c : @PEcfg F.
+
+  Lemma revcumsum_dot_ext K (x y : nat -> F) j :
+    (forall k, (k < K)%nat -> x k = y k) -> revcumsum_dot K x j = revcumsum_dot K y j.
+  Proof. intros H. unfold revcumsum_dot. apply sumn_ext. intros i Hi. now rewrite H. Qed.
+
+  Lemma implicit_terms_respects sp lam (x y : @Col F) :
+    col_eq (cK c) x y -> col_eq (cK c) (implicit_terms sp c lam x) (implicit_terms sp c lam y).
+  Proof.
+    intros (Ed & Et & El). repeat split; cbn [implicit_terms c_div c_temp c_lnps].
+    - intros g Hg. rewrite El.
+      assert (E : geo_diff sp c (c_temp x) g = geo_diff sp c (c_temp y) g).
+      { unfold geo_diff. destruct sp.
+        - unfold geo_diff_sparse. cbv zeta. rewrite (Et g Hg). f_equal.
+          apply revcumsum_dot_ext. intros k Hk. now rewrite (Et k Hk).
+        - unfold geo_diff_dense. apply sumn_ext. intros k Hk. now rewrite (Et k Hk). }
+      now rewrite E.
+    - intros g Hg. unfold temp_implicit. destruct sp.
+      + unfold temp_implicit_sparse. cbv zeta. rewrite (Ed g Hg).
+        rewrite (cumsum_dot_ext (cK c) (fun k => thickness (cb c) k * c_div x k) (fun k => thickness (cb c) k * c_div y k) g)
+          by (intros k Hk; now rewrite (Ed k Hk)).
+        rewrite (revcumsum_dot_ext (cK c) (fun k => thickness (cb c) k * c_div x k) (fun k => thickness (cb c) k * c_div y k) g)
+          by (intros k Hk; now rewrite (Ed k Hk)).
+        reflexivity.
+      + unfold temp_implicit_dense. now apply matvec_ext.
+    - f_equal. now apply matvec_ext.
+  Qed.
+
+  Lemma inverse_split_linear inv eta lam a b (x y : @Col F) :
+    col_eq (cK c) (inverse_split inv c eta lam (col_lin a x b y))
+                  (col_lin a (inverse_split inv c eta lam x) b (inverse_split inv c eta lam y)).
+  Proof.
+    unfold inverse_split. cbv zeta.
+    change (lnps_vec (col_lin a x b y)) with (fun h : nat => a * lnps_vec x h + b * lnps_vec y h).
+    repeat split; cbn [col_lin c_div c_temp c_lnps]; intros; rewrite !matvec_lin; ring.
+  Qed.
+
+  Lemma inverse_split_respects inv eta lam (x y : @Col F) :
+    col_eq (cK c) x y -> col_eq (cK c) (inverse_split inv c eta lam x) (inverse_split inv c eta lam y).
+  Proof.
+    intros (Ed & Et & El). unfold inverse_split. cbv zeta.
+    assert (EL : forall A i, matvec 1 A (lnps_vec x) i = matvec 1 A (lnps_vec y) i)
+      by (intros; apply matvec_ext; intros; unfold lnps_vec; now rewrite El).
+    repeat split; cbn [c_div c_temp c_lnps]; intros; rewrite !EL;
+      rewrite !(matvec_ext (cK c) _ (c_div x) (c_div y)) by assumption;
+      rewrite !(matvec_ext (cK c) _ (c_temp x) (c_temp y)) by assumption; reflexivity.
+  Qed.
+
+  (** implicit_terms and implicit_inverse (default method 'split'; [lam l] = laplacian eigenvalue of l, any matrix
+      inverse routine [inv]) of the rotated / mirrored (divergence, temperature, lnps) stacks *)
+  Theorem implicit_terms_equivariant fast sp (lam : nat -> F) (rc rs : nat -> F) pz (dv tp : nat -> marr) (ps : marr) g i l :
+    (g < cK c)%nat ->
+    let Lop := fun l => implicit_terms sp c (lam l) in
+    (let dv' := fun g => rot_modal fast rc rs (dv g) in let tp' := fun g => rot_modal fast rc rs (tp g) in
+     let ps' := rot_modal fast rc rs ps in
+     op_div Lop dv' tp' ps' g i l = rot_modal fast rc rs (op_div Lop dv tp ps g) i l /\
+     op_temp Lop dv' tp' ps' g i l = rot_modal fast rc rs (op_temp Lop dv tp ps g) i l /\
+     op_lnps Lop dv' tp' ps' i l = rot_modal fast rc rs (op_lnps Lop dv tp ps) i l) /\
+    (let dv' := fun g => mir_modal fast pz (dv g) in let tp' := fun g => mir_modal fast pz (tp g) in
+     let ps' := mir_modal fast pz ps in
+     op_div Lop dv' tp' ps' g i l = mir_modal fast pz (op_div Lop dv tp ps g) i l /\
+     op_temp Lop dv' tp' ps' g i l = mir_modal fast pz (op_temp Lop dv tp ps g) i l /\
+     op_lnps Lop dv' tp' ps' i l = mir_modal fast pz (op_lnps Lop dv tp ps) i l).
+  Proof.
+    intros Hg Lop.
+    assert (Hlin : col_linear (cK c) Lop) by (intros l' a b x y; apply L_linear).
+    assert (Hres : col_respects (cK c) Lop) by (intros l' x y; apply implicit_terms_respects).
+    split.
+    - exact (column_family_rot_equivariant fast (cK c) Lop rc rs dv tp ps g i l Hlin Hg).
+    - exact (column_family_mir_equivariant fast (cK c) Lop pz dv tp ps g i l Hlin Hres Hg).
+  Qed.
+
+  Theorem implicit_inverse_equivariant fast inv eta (lam : nat -> F) (rc rs : nat -> F) pz (dv tp : nat -> marr) (ps : marr) g i l :
+    (g < cK c)%nat ->
+    let Lop := fun l => inverse_split inv c eta (lam l) in
+    (let dv' := fun g => rot_modal fast rc rs (dv g) in let tp' := fun g => rot_modal fast rc rs (tp g) in
+     let ps' := rot_modal fast rc rs ps in
+     op_div Lop dv' tp' ps' g i l = rot_modal fast rc rs (op_div Lop dv tp ps g) i l /\
+     op_temp Lop dv' tp' ps' g i l = rot_modal fast rc rs (op_temp Lop dv tp ps g) i l /\
+     op_lnps Lop dv' tp' ps' i l = rot_modal fast rc rs (op_lnps Lop dv tp ps) i l) /\
+    (let dv' := fun g => mir_modal fast pz (dv g) in let tp' := fun g => mir_modal fast pz (tp g) in
+     let ps' := mir_modal fast pz ps in
+     op_div Lop dv' tp' ps' g i l = mir_modal fast pz (op_div Lop dv tp ps g) i l /\
+     op_temp Lop dv' tp' ps' g i l = mir_modal fast pz (op_temp Lop dv tp ps g) i l /\
+     op_lnps Lop dv' tp' ps' i l = mir_modal fast pz (op_lnps Lop dv tp ps) i l).
+  Proof.
+    intros Hg Lop.
+    assert (Hlin : col_linear (cK c) Lop) by (intros l' a b x y; apply inverse_split_linear).
+    assert (Hres : col_respects (cK c) Lop) by (intros l' x y; apply inverse_split_respects).
+    split.
+    - exact (column_family_rot_equivariant fast (cK c) Lop rc rs dv tp ps g i l Hlin Hg).
+    - exact (column_family_mir_equivariant fast (cK c) Lop pz dv tp ps g i l Hlin Hres Hg).
+  Qed.
+End ImplicitInstances.
